@@ -109,14 +109,18 @@ class Check(Prop):
         progs = self.progs
         rand_lower = st.from_regex(r"[a-z_][a-z0-9_]{0,13}", fullmatch=True)
         rand_upper = st.from_regex(r"[A-Z][A-Za-z0-9_]{0,13}", fullmatch=True)
-        lower = st.one_of(rand_lower, st.sampled_from(EDGE_LOWER), st.sampled_from(HOSTILE_LOWER))
+        lower = st.one_of(rand_lower, st.sampled_from(EDGE_LOWER), st.sampled_from(HOSTILE_LOWER), st.sampled_from(list("abeinqtxz_")))
         upper = st.one_of(rand_upper, st.sampled_from(EDGE_UPPER), st.sampled_from(HOSTILE_UPPER))
 
         @st.composite
         def gen_case(draw):
             p = draw(rb.program(max_stmts=8, case_in=True))
             names = p["names"]
-            kinds = [k for k in names if names[k]]
+            kinds = [k for k in names if names[k] and k != "writer"]
+            if names.get("writer") and draw(st.integers(0, 2)) == 0:
+                # hand-written attribute writers (def name=(v)) are name-shape sensitive: rename them often
+                old = names["writer"][draw(st.integers(0, len(names["writer"]) - 1))]
+                return {"src": rb.render(p["tree"]), "old": old, "new": draw(lower), "kind": "method"}
             if not kinds:
                 return {"src": rb.render(p["tree"]), "old": "", "new": "x", "kind": "local"}
             kind = kinds[draw(st.integers(0, len(kinds) - 1))]
